@@ -1,3 +1,358 @@
-//! C11: ICMP echo tunnelling (placeholder: filled in below)
+//! C11: ICMP echo tunnelling - checksum, (de)serialisation, 7.3 / 7.4 codec.
 use crate::common::*;
-pub fn run(_ctx: &mut Ctx) {}
+use std::net::IpAddr;
+use trusttunnel::verif;
+
+/// independent RFC 1071 verification: one's-complement sum of the whole message folds to 0xffff
+fn verifies(pkt: &[u8]) -> bool {
+    let mut sum: u64 = 0;
+    let mut i = 0;
+    while i < pkt.len() {
+        let hi = pkt[i] as u64;
+        let lo = if i + 1 < pkt.len() { pkt[i + 1] as u64 } else { 0 };
+        sum += (hi << 8) | lo;
+        i += 2;
+    }
+    while sum >> 16 != 0 {
+        sum = (sum >> 16) + (sum & 0xffff);
+    }
+    sum == 0xffff
+}
+
+fn ipv4_header(proto: u8, ihl: u8, total_extra: usize) -> Vec<u8> {
+    let mut h = vec![0u8; 20];
+    h[0] = 0x40 | (ihl & 0x0f);
+    h[8] = 64;
+    h[9] = proto;
+    h[12..16].copy_from_slice(&[192, 0, 2, 2]);
+    h[16..20].copy_from_slice(&[127, 0, 0, 1]);
+    h.extend(vec![0u8; total_extra]);
+    h
+}
+
+fn ipv6_header(next: u8) -> Vec<u8> {
+    let mut h = vec![0u8; 40];
+    h[0] = 0x60;
+    h[6] = next;
+    h[7] = 64;
+    h[23] = 1;
+    h[39] = 1;
+    h
+}
+
+fn gen_data(ctx: &mut Ctx) -> Vec<u8> {
+    let n = match ctx.rng.below(10) {
+        0 => 0,
+        1 => 1,
+        2 => 2,
+        3 => 3,
+        4 => 56,
+        5 => 64,
+        6 => 1472,
+        7 => ctx.rng.below(1500) as usize,
+        8 => 65535,
+        _ => ctx.rng.below(64) as usize,
+    };
+    match ctx.rng.below(4) {
+        0 => vec![0xff; n],
+        1 => vec![0x00; n],
+        _ => ctx.rng.bytes(n),
+    }
+}
+
+pub fn run(ctx: &mut Ctx) {
+    quiet_panics();
+    let rt = tokio::runtime::Builder::new_current_thread().enable_all().build().unwrap();
+
+    // ---- checksum on raw byte strings, incl. sums that carry twice -----------------------------
+    let mut strings: Vec<Vec<u8>> = vec![
+        vec![],
+        vec![0xff],
+        vec![0xff, 0xff],
+        vec![0xff, 0xff, 0xff, 0xff, 0x00, 0x01],
+        vec![0xff, 0xff, 0xff, 0xff, 0x00, 0x02],
+        vec![0x00],
+        vec![0x80, 0x00, 0x80, 0x00],
+        vec![0xff; 65535],
+        vec![0xff; 65534],
+    ];
+    // sums landing on 0x1fffe .. 0x20001 and around the first carry
+    for target in [0xfffeu32, 0xffff, 0x10000, 0x10001, 0x1fffd, 0x1fffe, 0x1ffff, 0x20000, 0x20001, 0x2fffe, 0x2ffff, 0x30000] {
+        let mut v = vec![];
+        let mut rem = target;
+        while rem > 0 {
+            let w = rem.min(0xffff);
+            v.extend_from_slice(&(w as u16).to_be_bytes());
+            rem -= w;
+        }
+        strings.push(v);
+    }
+    let n_rand = if ctx.thorough() { 200_000 } else { 20_000 };
+    for _ in 0..n_rand {
+        let n = ctx.rng.below(80) as usize;
+        let mut v = ctx.rng.bytes(n);
+        if ctx.rng.chance(1, 3) {
+            for b in v.iter_mut() {
+                if ctx.rng.chance(2, 3) {
+                    *b = 0xff;
+                }
+            }
+        }
+        strings.push(v);
+    }
+    for s in &strings {
+        let c = verif::rfc1071_checksum(s);
+        ctx.emit(&format!("c11 checksum {}", hex(s)), &format!("{}", c));
+        ctx.stat("checksum");
+    }
+
+    // ---- Echo::serialize: model equality + independent verification --------------------------------
+    let n_ser = if ctx.thorough() { 20_000 } else { 2_000 };
+    for i in 0..n_ser {
+        let v6 = ctx.rng.chance(1, 2);
+        let id = *ctx.rng.pick(&[0u16, 1, 0xffff, 0x1234, 0xff00]);
+        let seq = if i % 3 == 0 { ctx.rng.next() as u16 } else { *ctx.rng.pick(&[0u16, 1, 0xffff]) };
+        let data = if i < 40 { vec![0xff; (i * 7) as usize] } else { gen_data(ctx) };
+        let wire = verif::icmp_echo_serialize(v6, id, seq, &data);
+        if !verifies(&wire) && !v6 {
+            ctx.oracle_failure(
+                "checksum_does_not_verify",
+                &format!("serialize v6={} id={} seq={} data={} gives {} whose checksum does not verify", v6, id, seq, hex(&data), hex(&wire[..8.min(wire.len())])),
+            );
+        }
+        if data.len() <= 1500 {
+            ctx.emit(&format!("c11 serialize {} {} {} {}", v6 as u8, id, seq, hex(&data)), &hex(&wire));
+        } else {
+            // long payloads: compare header (with checksum) only, to keep the query file small
+            ctx.emit(&format!("c11 serializehdr {} {} {} {}", v6 as u8, id, seq, hex(&data)), &hex(&wire[..8]));
+        }
+        ctx.stat(if v6 { "serialize_v6" } else { "serialize_v4" });
+    }
+
+    // ---- received packets: skip_ip*_header, deserialize, responded_echo_request, 7.4 encoder ---------
+    let mut packets: Vec<(bool, Vec<u8>)> = vec![];
+    let n_pk = if ctx.thorough() { 30_000 } else { 3_000 };
+    for _ in 0..n_pk {
+        let v6 = ctx.rng.chance(1, 2);
+        let id = ctx.rng.next() as u16;
+        let seq = ctx.rng.next() as u16;
+        let dlen = *ctx.rng.pick(&[0usize, 1, 8, 32]);
+        let data = ctx.rng.bytes(dlen);
+        let req = verif::icmp_echo_serialize(v6, id, seq, &data);
+        let kind = ctx.rng.below(12);
+        let mut p: Vec<u8> = match (v6, kind) {
+            (false, 0) => {
+                let mut r = req.clone();
+                r[0] = 0; // echo reply
+                r
+            }
+            (true, 0) => {
+                let mut r = req.clone();
+                r[0] = 129;
+                r
+            }
+            (false, 1..=5) => {
+                // error quoting the request
+                let t = *ctx.rng.pick(&[3u8, 4, 5, 11, 12]);
+                let code = ctx.rng.below(8) as u8;
+                let ihl = *ctx.rng.pick(&[5u8, 5, 5, 6, 15, 4, 0]);
+                let extra = ((ihl as usize).saturating_sub(5)) * 4;
+                let mut r = vec![t, code, 0, 0, 0, 0, 0, 0];
+                r.extend(ipv4_header(*ctx.rng.pick(&[1u8, 1, 1, 6, 17]), ihl, extra));
+                r.extend(&req[..req.len().min(8 + *ctx.rng.pick(&[0usize, 8, 40]))]);
+                r
+            }
+            (true, 1..=5) => {
+                let t = *ctx.rng.pick(&[1u8, 2, 3, 4]);
+                let code = ctx.rng.below(8) as u8;
+                let mut r = vec![t, code, 0, 0, 0, 0, 0, 0];
+                let chain = ctx.rng.below(4);
+                let mut hdr = ipv6_header(58);
+                let mut exts: Vec<u8> = vec![];
+                let mut first_next = 58u8;
+                // extension header chain (hop-by-hop / routing / dst-opts / fragment), lengths right or wrong
+                let mut protos = vec![];
+                for _ in 0..chain {
+                    protos.push(*ctx.rng.pick(&[0u8, 43, 60, 44]));
+                }
+                for (i, pr) in protos.iter().enumerate() {
+                    let next = if i + 1 < protos.len() { protos[i + 1] } else { 58 };
+                    if i == 0 {
+                        first_next = *pr;
+                    }
+                    if *pr == 44 {
+                        exts.extend_from_slice(&[next, 0, 0, 0, 0, 0, 0, 1]);
+                    } else {
+                        let n = *ctx.rng.pick(&[0u8, 0, 1, 2, 255, 30]);
+                        let real = if ctx.rng.chance(3, 4) { (n as usize + 1) * 8 - 2 } else { ctx.rng.below(20) as usize };
+                        exts.push(next);
+                        exts.push(n);
+                        exts.extend(vec![0u8; real.min(300)]);
+                    }
+                }
+                hdr[6] = first_next;
+                r.extend(hdr);
+                r.extend(exts);
+                r.extend(&req);
+                r
+            }
+            (false, 6) => vec![13, 0, 0, 0, 0, 1, 0, 2, 0, 0, 0, 0, 0, 0, 0, 0, 0, 0, 0, 0],
+            (false, 7) => vec![15, 0, 0, 0, 0, 1, 0, 2, 0, 0, 0, 0, 0, 0, 0, 0, 0, 0, 0, 0],
+            (_, 8) => {
+                let n = ctx.rng.below(60) as usize;
+                ctx.rng.bytes(n)
+            }
+            (_, 9) => {
+                // valid-looking type with arbitrary short length
+                let t = if v6 { *ctx.rng.pick(&[1u8, 2, 3, 4, 128, 129]) } else { *ctx.rng.pick(&[0u8, 3, 4, 5, 8, 11, 12, 13, 14, 15, 16]) };
+                let mut r = vec![t];
+                let n = ctx.rng.below(50) as usize;
+                r.extend(ctx.rng.bytes(n));
+                r
+            }
+            _ => req.clone(),
+        };
+        // structural mutation: truncate
+        if ctx.rng.chance(1, 6) && !p.is_empty() {
+            let n = ctx.rng.below(p.len() as u64) as usize;
+            p.truncate(n);
+        }
+        packets.push((v6, p));
+    }
+    // exhaustive short strings over a reduced alphabet after each type byte
+    let alpha = [0u8, 1, 3, 8, 0x45, 0x3a, 0xff];
+    for v6 in [false, true] {
+        let types: Vec<u8> = if v6 { vec![1, 2, 3, 4, 128, 129, 0] } else { vec![0, 3, 4, 5, 8, 11, 12, 13, 15, 99] };
+        for t in types {
+            for a in alpha {
+                for b in alpha {
+                    for c in alpha {
+                        packets.push((v6, vec![t, a, b, c]));
+                        packets.push((v6, vec![t, a, b, c, a, b, c, a, b]));
+                    }
+                }
+            }
+        }
+    }
+    for (v6, p) in &packets {
+        let h = hex(p);
+        // IP header skipping on the quoted part (offset 8) and on the raw packet
+        for body in [p.as_slice(), if p.len() > 8 { &p[8..] } else { &p[0..0] }] {
+            let q = format!("c11 skip {} {}", *v6 as u8, hex(body));
+            match catch(|| verif::skip_ip_header(*v6, body)) {
+                Ok(None) => ctx.emit(&q, "none"),
+                Ok(Some((proto, rest))) => ctx.emit(&q, &format!("{} {}", proto, hex(&rest))),
+                Err(m) => {
+                    ctx.emit(&q, "panic");
+                    ctx.oracle_failure("panic", &format!("skip_ip_header v6={} panicked ({}) on {}", v6, m, hex(body)));
+                }
+            }
+        }
+        let q = format!("c11 responded {} {}", *v6 as u8, h);
+        match catch(|| verif::icmp_responded(*v6, p)) {
+            Ok(None) => {
+                ctx.emit(&q, "rejected");
+                ctx.stat("pkt_rejected");
+            }
+            Ok(Some(None)) => {
+                ctx.emit(&q, "none");
+                ctx.stat("pkt_no_request");
+            }
+            Ok(Some(Some((code, id, seq, data)))) => {
+                ctx.emit(&q, &format!("{} {} {} {}", code, id, seq, hex(&data)));
+                ctx.stat("pkt_designates_request");
+            }
+            Err(m) => {
+                ctx.emit(&q, "panic");
+                ctx.oracle_failure("panic", &format!("icmp deserialize/responded v6={} panicked ({}) on {}", v6, m, h));
+            }
+        }
+        let q = format!("c11 deser {} {}", *v6 as u8, h);
+        match catch(|| verif::icmp_deserialize_view(*v6, p)) {
+            Ok(None) => ctx.emit(&q, "rejected"),
+            Ok(Some((t, c))) => ctx.emit(&q, &format!("{} {}", t, c)),
+            Err(_) => ctx.emit(&q, "panic"),
+        }
+        let peer: IpAddr = if *v6 { "2001:db8::7".parse().unwrap() } else { "198.51.100.7".parse().unwrap() };
+        let q = format!("c11 encreply {} {} {}", *v6 as u8, ip_tokens(&peer), h);
+        match catch(|| verif::icmp_encode_reply(*v6, peer, p)) {
+            Ok(None) => ctx.emit(&q, "rejected"),
+            Ok(Some(None)) => ctx.emit(&q, "none"),
+            Ok(Some(Some(b))) => ctx.emit(&q, &hex(&b)),
+            Err(_) => ctx.emit(&q, "panic"),
+        }
+    }
+
+    // ---- 7.3 request stream decoder under segmentations ----------------------------------------------
+    let n_streams = if ctx.thorough() { 300 } else { 40 };
+    for _ in 0..n_streams {
+        let nrec = ctx.rng.range(1, 4) as usize;
+        let mut stream = vec![];
+        for _ in 0..nrec {
+            let id = ctx.rng.next() as u16;
+            let seq = ctx.rng.next() as u16;
+            let ttl = *ctx.rng.pick(&[0u8, 1, 64, 255]);
+            let size = *ctx.rng.pick(&[0u16, 1, 56, 1472]);
+            let dest: IpAddr = ctx.rng.pick(&["127.0.0.1", "8.8.8.8", "::1", "2001:db8::1", "0.0.0.0", "ff02::1", "::ffff:1.2.3.4"]).parse().unwrap();
+            stream.extend_from_slice(&id.to_be_bytes());
+            crate::c06::put_ip16(&mut stream, &dest);
+            stream.extend_from_slice(&seq.to_be_bytes());
+            stream.push(ttl);
+            stream.extend_from_slice(&size.to_be_bytes());
+        }
+        if ctx.rng.chance(1, 4) {
+            let cut = ctx.rng.below(23) as usize;
+            stream.extend(ctx.rng.bytes(cut));
+        }
+        let n = stream.len();
+        let mut segs: Vec<Vec<Vec<u8>>> = vec![vec![stream.clone()], stream.iter().map(|b| vec![*b]).collect()];
+        for c in 1..n {
+            segs.push(vec![stream[..c].to_vec(), stream[c..].to_vec()]);
+        }
+        for _ in 0..30 {
+            let mut cuts: Vec<usize> = (0..ctx.rng.range(2, 3)).map(|_| ctx.rng.below(n as u64 + 1) as usize).collect();
+            cuts.sort();
+            let mut out = vec![];
+            let mut prev = 0;
+            for c in cuts {
+                out.push(stream[prev..c].to_vec());
+                prev = c;
+            }
+            out.push(stream[prev..].to_vec());
+            segs.push(out);
+        }
+        for chunks in segs {
+            let mut q = String::from("c11 decode");
+            for c in &chunks {
+                q.push(' ');
+                q.push_str(&hex(c));
+            }
+            let c2 = chunks.clone();
+            match catch(std::panic::AssertUnwindSafe(|| rt.block_on(verif::icmp_decode_stream(c2)))) {
+                Ok(reqs) => {
+                    let mut parts = vec![];
+                    for r in &reqs {
+                        parts.push(format!("{} {} {} {} {} {}", r.id, ip_tokens(&r.peer), r.seq, r.ttl, r.data_len, r.type_id));
+                        // the echo put on the wire: right type, id, seq, size, valid checksum
+                        let w = &r.wire;
+                        let ok = w.len() == 8 + r.data_len
+                            && w[0] == r.type_id
+                            && w[1] == 0
+                            && u16::from_be_bytes([w[4], w[5]]) == r.id
+                            && u16::from_be_bytes([w[6], w[7]]) == r.seq
+                            && (r.peer.is_ipv6() || verifies(w));
+                        if !ok {
+                            ctx.oracle_failure("bad_echo_on_wire", &format!("request {:?} serialised as {}", (r.id, r.seq, r.data_len), hex(&w[..w.len().min(16)])));
+                        }
+                    }
+                    ctx.emit(&q, &if parts.is_empty() { "-".to_string() } else { parts.join(";") });
+                    ctx.stat("decode_segmentations");
+                }
+                Err(m) => {
+                    ctx.emit(&q, "panic");
+                    ctx.oracle_failure("panic", &format!("icmp request decoder panicked ({}) on {}", m, q));
+                }
+            }
+        }
+    }
+}
